@@ -750,7 +750,13 @@ func genLoud(r *rng.R, slack, early int) *caseIn {
 func genFloods(slack, early int, add func(*caseIn, string)) {
 	k := 0
 	for _, kind := range []string{"call", "reply", "chunk", "meta", "ack"} {
-		for _, n := range []int{1030, 1100, 2100} {
+		ns := []int{1030, 1100, 2100}
+		if kind == "chunk" || kind == "meta" {
+			// two 1024-slot queues in series (wire subscription + stream inbox): only beyond ~2056
+			// undrained items does the backlog reach the wire connection's dispatcher
+			ns = append(ns, 3300)
+		}
+		for _, n := range ns {
 			cons := []string{"none"}
 			if n == 2100 && kind != "ack" {
 				cons = append(cons, "slow")
@@ -954,7 +960,7 @@ func main() {
 			"announced": []uint64{o.annI, o.annT}, "attempts": o.attempts, "request_after_flood_ok": o.reqOK, "observed_window_ms": o.horizon}
 		w.Add(coqfmt.Case{Term: term(j.c, o), Input: j.c, Observed: obs, Seed: j.seed, Nontrivial: nt, Kind: j.kind, Direct: o.direct})
 	}
-	rule := "timing: interval {40,80,150} ms x timeout {20,60} ms; the broker answers k=0..5 pings after 0/0.5x/0.9x timeout and then stops or answers after 1.5x timeout (dead), or keeps answering in time (alive), or answers in time while the link dies loudly between two pings or while a pong is under way (loud); inbound flood: the broker sends 1030/1100/2100 request calls / reply calls / downstream chunks / downstream metadata / upstream chunk acks that the application never consumes (or consumes slowly) while answering every ping at once - the connection must stay for 3 intervals + timeout after the flood and an ordinary request must then succeed; half with concurrent chunk traffic and an open request, 0-2 broker pings per client ping; grid of every (interval, timeout, k<=3, delay, stop/late) plus random. announce: fixed table (1500 ms, 999 ms, 1 s, 2 h, 0 = default, 2^32 s wrap, 2^24 s - 1 ns) plus random durations. non-trivial = at least two pings reached the broker (timing) / a duration that is not a whole number of seconds (announce); distinct = distinct Coq case terms"
+	rule := "timing: interval {40,80,150} ms x timeout {20,60} ms; the broker answers k=0..5 pings after 0/0.5x/0.9x timeout and then stops or answers after 1.5x timeout (dead), or keeps answering in time (alive), or answers in time while the link dies loudly between two pings or while a pong is under way (loud); inbound flood: the broker sends 1030/1100/2100 (chunks and metadata also 3300) request calls / reply calls / downstream chunks / downstream metadata / upstream chunk acks that the application never consumes (or consumes slowly) while answering every ping at once - the connection must stay for 3 intervals + timeout after the flood and an ordinary request must then succeed; half with concurrent chunk traffic and an open request, 0-2 broker pings per client ping; grid of every (interval, timeout, k<=3, delay, stop/late) plus random. announce: fixed table (1500 ms, 999 ms, 1 s, 2 h, 0 = default, 2^32 s wrap, 2^24 s - 1 ns) plus random durations. non-trivial = at least two pings reached the broker (timing) / a duration that is not a whole number of seconds (announce); distinct = distinct Coq case terms"
 	extra := map[string]interface{}{"missed_first_run": missed, "retried": retried, "recovered_on_retry": recovered, "slack_ms": *slack, "early_ms": *early, "guard_ms": *guard, "parallel": *par}
 	if err := w.Flush(*seed, *tier, rule, false, extra); err != nil {
 		fmt.Fprintln(os.Stderr, err)
